@@ -54,6 +54,13 @@ class RawX12File(object):
         self.ele_term = line[3]
         self.subele_term = line[-2]
         self.repetition_term = line[82] if self.icvn == '00501' else None
+        for term in (self.seg_term, self.ele_term, self.subele_term):
+            # a letter, digit or blank cannot be told apart from data - not even inside the ISA itself
+            if term.isalnum() or term == ' ':
+                err_str = 'ISA declares an alphanumeric or blank delimiter: %r' % (term)
+                raise pyx12.errors.X12Error(err_str)
+        if len(set([self.seg_term, self.ele_term, self.subele_term])) != 3:
+            raise pyx12.errors.X12Error('ISA declares the same character for two delimiters')
         self.buffer = line
         self.buffer += self.fd.read(DEFAULT_BUFSIZE)
 
